@@ -54,7 +54,9 @@ class PrivateTypeError(TypeError):
 
 
 CALL_ONLY = (PrivateTypeError,)
-CALL_KINDS = ("call", "acall", "gcall", "agen", "anext", "next", "gcoro", "gen")
+# (a TypeError out of a plain ATTRIBUTE access propagates too: Environment.getattr / getitem only turn it into
+# undefined for ITEM access; so "attr" events qualify, "item" / "len" / "iter" ones do not)
+CALL_KINDS = ("call", "acall", "gcall", "agen", "anext", "next", "gcoro", "gen", "attr")
 
 
 # exceptions a data object may raise; none of them is a documented lookup signal
